@@ -91,3 +91,53 @@ def register(reg):
         modifies=[],
         locals_types={"dict_impute": ROW, "solution": List(PATH), "matcher": Obj("SyntheticRuleMatcher")},
         props=["C02", "C08"])
+    register_constraint(reg)
+
+
+def register_constraint(reg):
+    """RuleConstraint.remove_banned_reactions (C08: accepted completions never add a banned species to the product side)."""
+    FC = "synrbl/SynRuleImputer/synthetic_rule_constraint.py"
+    PAT = Obj("Pattern")
+    reg.classdecl("Pattern", {})
+    reg.specfun("SEARCH", [PAT, STR], BOOL)     # pattern.search(text) finds something
+    reg.specfun("NFIND", [PAT, STR], INT)       # len(re.findall(pattern, text))
+
+    def m_obj_search(self, base, node, st, ctx):
+        if base.ty != PAT:
+            raise Unsupported("search on %r" % base.ty)
+        (x,) = self.args_of(node, st, ctx)
+        s = self.coerce(x, STR, st)
+        hit = self.uf("SEARCH", [I, S], B)(base.t, s.t)
+        return SV(VAL, self.fresh_const("match", VAL), none=None) if False else SV(VAL, z3.If(hit, Val.VBool(True), Val.VNone))
+
+    reg.methods = getattr(reg, "methods", {})
+    reg.methods["m_obj_search"] = m_obj_search
+
+    @reg.external("re.findall")
+    def re_findall(eng, st, ctx, args, kw, node):
+        p, x = args[0], eng.coerce(args[1], STR, st)
+        if p.ty != PAT:
+            raise Unsupported("re.findall with %r" % p.ty)
+        n = eng.uf("NFIND", [I, S], I)(p.t, x.t)
+        st.assume(n >= 0)
+        r = st.new_ref()
+        st.set_list(List(STR), r, n, z3.Const(fresh_name("found"), z3.ArraySort(I, S)))
+        return SV(List(STR), r)
+
+    PROD = "as_str(ite('products' in {R}, {R}['products'], ''))"
+    REAC = "as_str(ite('reactants' in {R}, {R}['reactants'], ''))"
+    reg.contract(
+        FC, "RuleConstraint.remove_banned_reactions",
+        params={"reaction_list": List(ROW), "ban_pattern": PAT, "ban_pattern_reactants": PAT},
+        returns=Tuple(List(ROW), List(ROW)), fresh_result=True,
+        requires=["forall(range(0, len(reaction_list)), lambda j: implies('products' in reaction_list[j], is_str(reaction_list[j]['products'])) and "
+                  "implies('reactants' in reaction_list[j], is_str(reaction_list[j]['reactants'])))"],
+        ensures=[
+            # every accepted reaction is one of the given ones, its product side does not match the ban pattern and its
+            # reactant side matches the reactant pattern an even number of times [C08]
+            "forall(range(0, len(result[0])), lambda k: in_list(result[0][k], reaction_list))",
+            "forall(range(0, len(result[0])), lambda k: not SEARCH(ban_pattern, {P}))".format(P=PROD.format(R="result[0][k]")),
+            "forall(range(0, len(result[0])), lambda k: NFIND(ban_pattern_reactants, {X}) % 2 == 0)".format(X=REAC.format(R="result[0][k]")),
+        ],
+        modifies=[],
+        props=["C08"])
